@@ -102,14 +102,26 @@ Items(b, i, end) ==                           \* split the payload [i, end) into
        ELSE LET rest == Items(b, e, end) IN
             IF ~rest.ok THEN rest ELSE [ok |-> TRUE, its |-> <<SubSeq(b, i, e - 1)>> \o rest.its, cls |-> "short"]
 
+\* description only: does a header met by scanning items sequentially from index i (ignoring the
+\* declared end of the list) declare an "edge63" length?
+RECURSIVE ScanEdge(_, _)
+ScanEdge(b, i) ==
+  IF i > Len(b) THEN FALSE
+  ELSE LET h == Header(b, i) IN
+       IF ~h.ok THEN FALSE
+       ELSE IF h.cls = "edge63" THEN TRUE
+       ELSE IF h.off + h.len - 1 > Len(b) THEN FALSE
+       ELSE ScanEdge(b, h.off + h.len)
+ListCls(b, h, c) == IF h.ok /\ ~h.str /\ ScanEdge(b, h.off) THEN "edge63" ELSE c
+
 DecodeList(b) ==
   LET h == Header(b, 1) IN
   IF ~h.ok THEN Fail(h.why, h.cls)
   ELSE IF h.str THEN Fail("not-a-list", h.cls)
-  ELSE IF h.off + h.len - 1 > Len(b) THEN Fail("payload-beyond-input", h.cls)
-  ELSE IF h.off + h.len - 1 < Len(b) THEN Fail("trailing-bytes", h.cls)
+  ELSE IF h.off + h.len - 1 > Len(b) THEN Fail("payload-beyond-input", ListCls(b, h, h.cls))
+  ELSE IF h.off + h.len - 1 < Len(b) THEN Fail("trailing-bytes", ListCls(b, h, h.cls))
   ELSE LET r == Items(b, h.off, h.off + h.len) IN
-       IF ~r.ok THEN Fail("bad-item", r.cls) ELSE [ok |-> TRUE, val |-> r.its]
+       IF ~r.ok THEN Fail("bad-item", ListCls(b, h, r.cls)) ELSE [ok |-> TRUE, val |-> r.its]
 
 \* ----------------------------------------------------------------- full recursive decoding
 DFail == [ok |-> FALSE]
@@ -137,14 +149,14 @@ Deep(b) == IF Len(b) = 0 THEN DFail ELSE DeepAt(b, 1, Len(b) + 1)
 RECURSIVE Concat(_)
 Concat(ss) == IF Len(ss) = 0 THEN << >> ELSE Head(ss) \o Concat(Tail(ss))
 
+\* The laws take the three results as arguments so that a caller evaluates each decoder once.
 \* accepted => the input is the encoder's image of what was decoded (nothing non-canonical is accepted)
-StringCanonical(b) == LET r == DecodeString(b) IN r.ok => Enc(StrItem(r.val)) = b
-DeepCanonical(b)   == LET r == Deep(b) IN r.ok => Enc(r.t) = b
+StringCanonical(b, s) == s.ok => Enc(StrItem(s.val)) = b
+DeepCanonical(b, d)   == d.ok => Enc(d.t) = b
 \* one-level list decoding: the items tile the payload under a minimal header
-ListTiles(b)       == LET r == DecodeList(b) IN
-                      r.ok => LET p == Concat(r.val) IN Hdr(192, Len(p)) \o p = b
+ListTiles(b, l)       == l.ok => LET p == Concat(l.val) IN Hdr(192, Len(p)) \o p = b
 \* the three decoders agree where they overlap
-Agree(b) == LET d == Deep(b)  s == DecodeString(b)  l == DecodeList(b) IN
+Agree(s, l, d) ==
             /\ ~(s.ok /\ l.ok)
             /\ (d.ok /\ IsStr(d.t))  <=> s.ok
             /\ (d.ok /\ IsStr(d.t))  => s.val = d.t.s
@@ -152,13 +164,15 @@ Agree(b) == LET d == Deep(b)  s == DecodeString(b)  l == DecodeList(b) IN
 \* every encoding is accepted and decodes to the item it encodes
 RoundTrip(t) == LET e == Enc(t) IN Deep(e) = [ok |-> TRUE, t |-> t]
 
-Laws(b) == StringCanonical(b) /\ DeepCanonical(b) /\ ListTiles(b) /\ Agree(b)
+LawsOf(b, s, l, d) == StringCanonical(b, s) /\ DeepCanonical(b, d) /\ ListTiles(b, l) /\ Agree(s, l, d)
+Laws(b) == LawsOf(b, DecodeString(b), DecodeList(b), Deep(b))
 
 \* table rows (printed as JSON): <<input, string result, list result, deep result, reasons>>;
 \* a failing result is 0, a successful one a record holding the value
-Row(b) == LET s == DecodeString(b)  l == DecodeList(b)  d == Deep(b) IN
+RowOf(b, s, l, d) ==
           <<b, IF s.ok THEN [v |-> s.val] ELSE 0, IF l.ok THEN [v |-> l.val] ELSE 0, IF d.ok THEN [t |-> d.t] ELSE 0,
             <<IF s.ok THEN "ok" ELSE s.why, IF s.ok THEN "" ELSE s.cls,
               IF l.ok THEN "ok" ELSE l.why, IF l.ok THEN "" ELSE l.cls>> >>
+Row(b) == RowOf(b, DecodeString(b), DecodeList(b), Deep(b))
 CompactRow(b) == LET r == Row(b) IN <<r[1], r[2], r[3], r[4]>>
 =============================================================================
